@@ -216,15 +216,69 @@ def judge_scripts(ctx: Ctx, scripts, kind="dbg"):
     return seen
 
 
+# --------------------------------------------------------------------------- ProxyFix / server fallback (growth)
+PJUDGE = "ProxyFixTrace"
+
+
+def _case_from_export(e):
+    env = {k: _txt(e["env"][k]) for k in ("remote", "scheme", "host", "sname", "sport", "script")}
+    if not e["env"]["hostp"]:
+        env["host"] = None
+    hd = {k: (_txt(v["text"]) if v["p"] else None) for k, v in e["hd"].items()}
+    return {"cfg": e["cfg"], "env": env, "hd": hd, "trusted": ["a.co", "[::1]"], "extras": ["e.co:8080"], "exp": e["out"]}
+
+
+def proxy_cases(ctx: Ctx):
+    rng = random.Random(ctx.seed + 2)
+    rows = [v for v in ctx.export(AREA, "MCProxyFix", "MCPX_cases" if ctx.quick else "MCPX_big", count_states=False)
+            if isinstance(v, dict) and "hd" in v]
+    ctx.notes["proxyfix_rows_exported"] = len(rows)
+    if len(rows) < 5000:
+        raise MachineryError(f"ProxyFix export too small: {len(rows)} rows")
+    if ctx.quick:   # a representative slice: every row with a forwarded host, a third of the rest
+        rows = [r for n, r in enumerate(rows) if (r["hd"]["host"]["p"] and n % 2 == 0) or n % 5 == 0]
+    cases = [_case_from_export(r) for r in rows]
+    ctx.notes["proxyfix_rows_replayed"] = len(cases)
+    fb = ht.fallback_cases()
+    cases += fb if not ctx.quick else fb[::3]
+    cases += ht.proxy_random_cases(rng, _n(1200, 40000, ctx.quick))
+    return cases
+
+
+def judge_proxy(ctx: Ctx, cases, kind="pfix"):
+    lines = pmap(ht.proxy_case, cases, workers=ctx.workers, chunksize=64)
+    seen = {"proxy_accept": 0, "proxy_SecurityError": 0, "proxy_host_replaced": 0, "proxy_twin": 0, "proxy_fallback": 0}
+    for t, (c, ln) in enumerate(zip(cases, lines)):
+        ln["t"], ln["i"] = t, 0
+        seen["proxy_accept"] += ln["r"]["kind"] == "value"
+        seen["proxy_SecurityError"] += ln["r"]["exc"] == "SecurityError"
+        seen["proxy_host_replaced"] += ln["out"]["host"] != ln["env"]["host"]
+        seen["proxy_twin"] += ln["has_twin"]
+        seen["proxy_fallback"] += not ln["out"]["hostp"]
+        if ln["out"] != ln["env"] or not ln["out"]["hostp"]:
+            ctx.nontrivial.add(("pfix", tuple(sorted(c["cfg"].items())), tuple(sorted((k, v) for k, v in c["hd"].items() if v)),
+                                c["env"]["host"], c["env"]["sname"], c["env"]["sport"], tuple(c["trusted"])))
+        if t % 2999 == 11:
+            ctx.sample({"proxy_fix": c["cfg"], "headers": {k: v for k, v in c["hd"].items() if v is not None}, "environ": c["env"],
+                        "trusted": c["trusted"], "host_after": _txt(ln["out"]["host"]), "Request.host": [ln["r"]["kind"], _txt(ln["r"]["v"]), ln["r"]["exc"]]})
+    ctx.count(len(lines))
+    for r in ctx.judge(AREA, PJUDGE, lines, batch=2500):
+        c = dict(cases[r["t"]])
+        ctx.violation(f"{r['clause']}:proxy_fix", r["clause"], c, kind=kind)
+    return seen
+
+
 # --------------------------------------------------------------------------- entry points
 # the committed models must pass; the model of the code as pinned and three hand-broken variants must fail
-MODELS = [("MCHostTrust", "MCH_quick", None), ("MCDebugger", "MCD_fixed", None)]
-MODELS_THOROUGH = [("MCHostTrust", "MCH_thorough", None), ("MCHostTrust", "MCH_lists2", None), ("MCHostTrust", "MCH_big", None)]
+MODELS = [("MCHostTrust", "MCH_quick", None), ("MCDebugger", "MCD_fixed", None), ("MCProxyFix", "MCP_quick", None)]
+MODELS_THOROUGH = [("MCHostTrust", "MCH_thorough", None), ("MCHostTrust", "MCH_lists2", None), ("MCHostTrust", "MCH_big", None),
+                   ("MCProxyFix", "MCP_full", None)]
 BROKEN = [("MCHostTrust", "MCH_orig", "ImplMeetsContract"),   # host_is_trusted as pinned (F14, F15)
           ("MCDebugger", "MCD_orig", "LockoutSticks"),        # the byte counter wraps (F40)
           ("MCDebugger", "MCD_mut_nohost", "ContractHolds"),
           ("MCDebugger", "MCD_mut_nosecret", "ContractHolds"),
-          ("MCDebugger", "MCD_mut_nopin", "ContractHolds")]
+          ("MCDebugger", "MCD_mut_nopin", "ContractHolds"),
+          ("MCProxyFix", "MCP_left", "ExtraLeftIrrelevant")]        # a table that counts from the left (client side)
 
 
 def model_checks(ctx: Ctx):
@@ -285,12 +339,14 @@ def run(ctx: Ctx):
     ctx.notes["model_transitions_replayed"] = sum(1 for s in scripts for st in s["steps"] if len(st) > 3)
     scripts += scripts_code_to_spec(ctx, rng)
     seen_d = judge_scripts(ctx, scripts)
-    ctx.notes["observed"] = {"hosts": seen_h, "debugger": seen_d}
+    # growth: ProxyFix decision table + SERVER_NAME fallback, composed with the trusted-host check
+    seen_p = judge_proxy(ctx, proxy_cases(ctx))
+    ctx.notes["observed"] = {"hosts": seen_h, "debugger": seen_d, "proxy": seen_p}
     from collections import Counter
     ctx.notes["violation_keys"] = dict(Counter(v["key"] for v in ctx.violations))
     # a run in which the guarded things never happen proves nothing
     # (only when nothing was rejected: a defect that makes an outcome unreachable must surface as its VIOLATION, not as exit 2)
-    for k, v in {**seen_h, **seen_d}.items():
+    for k, v in {**seen_h, **seen_d, **seen_p}.items():
         if v == 0 and not ctx.violations and not ctx.known_hits:
             raise MachineryError(f"vacuous run: outcome {k!r} was never observed")
     if len(pairs) < 1000 or len(lts) < 5000:
@@ -304,5 +360,7 @@ def replay(ctx: Ctx, data):
     ctx.sample(case)
     if kind == "host":
         judge_hosts(ctx, [case], kind=kind)
+    elif kind == "pfix":
+        judge_proxy(ctx, [case], kind=kind)
     else:
         judge_scripts(ctx, [{"evalex": case["evalex"], "pin_on": case["pin_on"], "steps": case["steps"], "src": "replay"}], kind=kind)
